@@ -4,10 +4,12 @@
 Require Extraction.
 Require Import ExtrOcamlBasic.
 From Coq Require Import ZArith List.
-From LasV Require Import Lib.Base Lib.Layout Model.Las Model.WriterAlias Model.DataAlias Model.ExtraDims Model.Pairing.
+From LasV Require Import Lib.Base Lib.Layout Model.Las Model.WriterAlias Model.DataAlias Model.ExtraDims Model.Pairing Model.WriterFault Model.RecView.
 Extraction Language OCaml.
 Extraction "../ocaml/c04/model.ml"
   Z.add Z.mul Z.sub Z.div_eucl Z.compare Z.of_nat Z.to_nat
   sopen plain_run with_run apply_cedit fdesc_eqb
   world_of dstep drun view write_obj
-  gate gate_by_name pair_up write_state read_state field_of.
+  gate gate_by_name pair_up write_state read_state field_of
+  wopen frun express
+  vworld_of vrun records_at.
